@@ -95,7 +95,18 @@ macro_rules! copyvec_impl {
                 if try_ { self.try_push(x).map_err(drop) } else { Ok(self.push(x)) }
             }
             unsafe fn push_nocheck(&mut self, x: u32) {
-                unsafe { self.push_unchecked(x) }
+                // the three unchecked forms in turn; the `_mut` form also writes through the reference it returns, so a
+                // reference to the wrong slot shows as a contents mismatch
+                unsafe {
+                    match x % 3 {
+                        0 => self.push_unchecked(x),
+                        1 => {
+                            let r = self.push_mut_unchecked(x ^ 0x4000_0000);
+                            *r ^= 0x4000_0000;
+                        }
+                        _ => self.push_with_unchecked(|| x),
+                    }
+                }
             }
             fn reserve1(&mut self, n: usize) -> Result<(), ()> {
                 self.try_reserve(n).map_err(drop)
@@ -107,12 +118,25 @@ macro_rules! copyvec_impl {
     };
     (@spare spare, $s:ident, $xs:ident) => {{
         let len = $s.len();
-        let spare = $s.spare_capacity_mut();
-        let k = spare.len().min($xs.len());
-        for i in 0..k {
-            spare[i].write($xs[i]);
+        let k;
+        if $xs.len() % 2 == 1 {
+            // `split_at_spare_mut`: the initialised part must be the whole old contents (a shorter or longer one makes
+            // the new elements land at the wrong index, which the model comparison sees)
+            let (init, spare) = $s.split_at_spare_mut();
+            let ilen = init.len();
+            k = spare.len().min($xs.len());
+            for i in 0..k {
+                spare[i].write($xs[i]);
+            }
+            unsafe { $s.set_len(ilen + k) };
+        } else {
+            let spare = $s.spare_capacity_mut();
+            k = spare.len().min($xs.len());
+            for i in 0..k {
+                spare[i].write($xs[i]);
+            }
+            unsafe { $s.set_len(len + k) };
         }
-        unsafe { $s.set_len(len + k) };
         k
     }};
     (@spare nospare, $s:ident, $xs:ident) => {{
